@@ -454,6 +454,7 @@ func c12(args []string) int {
 			}
 		}
 
+		reportPanics(run, "c12", rep)
 		nontrivial := false
 		for _, n := range touched {
 			if n >= 2 {
